@@ -32,7 +32,9 @@ CLAIMS.update({
                     "step over arbitrary histories, for every well-formed block state. Bounded in the bit-vector length (64 granules quick / 128 thorough). Layer 3, shrink path: JitAllocatorImpl_shrink "
                     "(used by shrink() and write()) is verified modularly over mark_shrunk_area: sizes that are zero or larger than the span are rejected without change, the span keeps its "
                     "start and >= new_size bytes, exactly the granules behind it are given back, and the pattern fill covers exactly that memory in the writable view of the same block. "
-                    "JitAllocator::alloc/release/query/reset (block list, RB-tree, range search, virtual memory) are not under contract: partial.",
+                    "Pool accounting: JitAllocatorImpl_insertBlock / removeBlock (list order, address-tree call, totals, and the cursor never designating a block that left the list) "
+                    "modular over the proved ArenaList::unlink/_add_node contracts, pools of <= 3 blocks. "
+                    "JitAllocator::alloc/release/query/reset (range search, block creation, virtual memory) are not under contract: partial.",
             "note": COMMON_NOTE + " Bit-vector functions are inlined into the block units (their bodies are re-verified in context)."},
     "C18": {"category": "model_checking",
             "text": "Arena: _alloc_oneshot (block chain free of dangling links, result aligned/inside the new current block, failure leaves the bump pointer), _alloc_reusable (granted size = slot "
@@ -40,8 +42,8 @@ CLAIMS.update({
                     "dynamic block unlinked and freed), reset. ArenaVector: reserve_fit/reserve_grow/reserve_additional/resize_fit/resize_grow keep size and contents, report a capacity that is "
                     "backed by the block received, zero-fill exactly the new tail, return the old buffer with its size, and fail without change - against the allocator contract the arena units "
                     "prove. String: prepare (three representations, size/capacity/NUL invariant, append keeps contents, old heap buffer freed exactly once), _op_string/_op_chars/_op_char/"
-                    "assign(Span)/pad_end/truncate against the textbook string. Bit-vector primitives. Bounded heap shapes (<= 3 arena blocks, buffers <= 16..48 bytes), sizes/counts symbolic. "
-                    "Partial: ArenaHash/Tree/List/Pool/BitSet, number/format String operations, arguments aliasing the string.",
+                    "assign(Span)/pad_end/truncate against the textbook string. ArenaList<JitAllocatorBlock>::unlink/_add_node (lists of <= 3 nodes). Bit-vector primitives. Bounded heap shapes (<= 3 arena blocks, buffers <= 16..48 bytes), sizes/counts symbolic. "
+                    "Partial: ArenaHash/Tree/Pool/BitSet, the ArenaList operations the library does not instantiate, number/format String operations, arguments aliasing the string.",
             "note": COMMON_NOTE + " malloc/free: CBMC's model with --malloc-may-fail --malloc-fail-null; memcpy/memset: byte-loop stubs."},
 })
 CLAIMS.update({
